@@ -207,14 +207,14 @@ Qed.
 (* int64_t %(uint64_t), int32_t %(uint32_t), int16_t %(uint16_t): the truncated remainder is returned whenever the return type can represent it *)
 Definition Percent_narrow_return_stmt : Prop :=
   (Trunc_rem_when in_u64 in_i64 op_mod_ul) /\
-  (Trunc_rem_when in_u32 in_i32 op_mod_u) /\
-  (Trunc_rem_when in_u16 in_i16 op_mod_us).
+  (Trunc_rem in_u32 op_mod_u) /\            (* since e502f6c the uint32_t / uint16_t overloads return int64_t / int32_t: every remainder *)
+  (Trunc_rem in_u16 op_mod_us).
 Lemma percent_narrow_return : Percent_narrow_return_stmt.
 Proof.
   unfold Percent_narrow_return_stmt. repeat apply conj.
   - exact op_mod_ul_trw.
-  - exact op_mod_u_trw.
-  - exact op_mod_us_trw.
+  - exact op_mod_u_tr.
+  - exact op_mod_us_tr.
 Qed.
 
 (* IntegerDom::div/divin/divexact/mod/modin/divmod/quoRem carry the conventions of the Integer functions they forward to *)
@@ -243,23 +243,27 @@ Qed.
    that does not fit comes back *)
 Definition Percent_narrow_wrap_stmt : Prop :=
   (forall n d, in_u64 d -> d <> 0 -> op_mod_ul n d = to_i64 (Z.rem n d)) /\
-  (forall n d, in_u32 d -> d <> 0 -> op_mod_u n d = to_i32 (Z.rem n d)) /\
-  (forall n d, in_u16 d -> d <> 0 -> op_mod_us n d = to_i16 (Z.rem n d)).
+  (forall n d, in_u32 d -> d <> 0 -> op_mod_u_old n d = to_i32 (Z.rem n d)) /\     (* HISTORY: bodies before e502f6c *)
+  (forall n d, in_u16 d -> d <> 0 -> op_mod_us_old n d = to_i16 (Z.rem n d)).
 Lemma percent_narrow_wrap : Percent_narrow_wrap_stmt.
-Proof. unfold Percent_narrow_wrap_stmt. repeat apply conj. - exact op_mod_ul_wrap. - exact op_mod_u_wrap. - exact op_mod_us_wrap. Qed.
+Proof. unfold Percent_narrow_wrap_stmt. repeat apply conj. - exact op_mod_ul_wrap. - exact op_mod_u_wrap_old. - exact op_mod_us_wrap_old. Qed.
 
-(* double operator%(double l), l = K / 2^s any dyadic (every double is one) with integer part t = trunc(l), 1 <= |t| < 2^64:
-   the result is the double nearest to the int64_t the uint64_t overload returns for |t|, i.e. to (int64_t)(n rem t);
-   for |l| <= 2^63 that is the truncated remainder rounded to double, for |l| <= 2^53 the remainder itself.
-   round53 (int64_t -> double) is a multiple of the last-place unit at most half a unit away (ties: even, tested only). *)
+(* double operator%(double l) (body since 2c6554a), l = K / 2^s any dyadic (every double is one) with integer part t = trunc(l) <> 0,
+   of ANY magnitude: the result is the truncated remainder n rem t converted to double TOWARDS ZERO (mpz_get_d): it is the
+   remainder itself whenever that is a double (always for |l| <= 2^53), and in every case |res| < |t| and n res >= 0 - the
+   clause of the property holds for this overload up to the precision of its return type.
+   HISTORY (last two conjuncts): the body before 2c6554a returned round53 (to_i64 (n rem t)) for |t| < 2^64. *)
 Definition Percent_double_all_stmt : Prop :=
   Percent_double_stmt /\
-  (forall n d, d <> 0 -> Z.abs d < W64 -> op_mod_d n d = round53 (to_i64 (Z.rem n d))) /\
-  (forall n K, Z.quot K 16 <> 0 -> Z.abs (Z.quot K 16) < W64 -> op_mod_dx n K = round53 (to_i64 (Z.rem n (Z.quot K 16)))) /\
-  (forall z, Z.abs z <= 9007199254740992 -> round53 z = z) /\
-  Round53_nearest_stmt.
+  (forall n d, d <> 0 -> op_mod_d n d = trunc53 (Z.rem n d)) /\
+  (forall n K, Z.quot K 16 <> 0 -> op_mod_dx n K = trunc53 (Z.rem n (Z.quot K 16))) /\
+  (forall z, Z.abs z <= 9007199254740992 -> trunc53 z = z) /\
+  (forall z, Z.abs (trunc53 z) <= Z.abs z /\ 0 <= z * trunc53 z /\
+     (9007199254740992 <= Z.abs z -> Z.abs z - Z.abs (trunc53 z) < 2 ^ (Z.log2 (Z.abs z) - 52) /\ exists m, trunc53 z = m * 2 ^ (Z.log2 (Z.abs z) - 52))) /\
+  Percent_double_stmt_old /\ Round53_nearest_stmt.
 Lemma percent_double_all : Percent_double_all_stmt.
 Proof.
   unfold Percent_double_all_stmt. repeat apply conj.
-  - exact percent_double. - exact op_mod_d_wrap. - exact op_mod_dx_wrap. - exact round53_small. - exact round53_nearest.
+  - exact percent_double. - exact op_mod_d_val. - exact op_mod_dx_val. - exact trunc53_small. - exact trunc53_toward_zero.
+  - exact percent_double_old. - exact round53_nearest.
 Qed.
